@@ -13,7 +13,7 @@ for d in sorted(glob.glob(os.path.join(ROOT, "seeded", "*"))):
 rv = os.path.join(ROOT, "seeded", "reverts", "meta.json")
 if os.path.exists(rv):
     j = json.load(open(rv))
-    rows.append("| reverts/revert_F1..F12.diff | the property of each fix | the failing input of section 0.1 | " + "; ".join("%s: %s" % kv for kv in j["results"].items()) + " |")
+    rows.append("| reverts/revert_F1..F13.diff | the property of each fix | the failing input of section 0.1 | " + "; ".join("%s: %s" % kv for kv in j["results"].items()) + " |")
 table = "\n".join(rows)
 p = os.path.join(ROOT, "DESIGN.md")
 s = open(p).read()
